@@ -52,15 +52,28 @@ def cmd_import(pid, k, src):
         d = dirs[0]
         for f in os.listdir(os.path.join(dst, "demo", d)):
             place.append([d + "/" + f, d + "/" + f])
-        run = "go run ./" + d
+        m = re.search(r"go run \./" + re.escape(d) + r"((?: +[A-Za-z0-9_-]+)*)", dc)
+        extra = (m.group(1) if m else "").strip()
+        extra = " ".join(w for w in extra.split() if w not in ("from", "with", "in", "at", "on", "and", "prints", "exit", "PASS", "FAIL"))
+        run = ("go run ./" + d + " " + extra).strip()
+        has_tests = any(f.endswith("_test.go") for f in os.listdir(os.path.join(dst, "demo", d)))
+        if has_tests:
+            run = "go test -vet=off -count=1 ./" + d + "/"
+        for f in demo:
+            if f.endswith(".html"):
+                place.append([f, d + "/" + f])
+        if "doc.html" in demo:
+            run = "go run ./" + d + " " + d + "/doc.html"
     elif "main.go" in demo:
-        place.append(["main.go", "cmd_seed_demo/main.go"])
+        for f in demo:
+            if f.endswith(".go") and not f.endswith("_test.go"):
+                place.append([f, "cmd_seed_demo/" + f])
         run = "go run ./cmd_seed_demo"
     elif tests:
-        t = tests[0]
         m = re.search(r"-run\s+(\S+)\s+(\./\S+)", dc)
         pkg = m.group(2).rstrip("/") if m else None
-        place.append([t, pkg.lstrip("./") + "/" + t])
+        for t in [f for f in demo if f.endswith(".go")]:
+            place.append([t, pkg.lstrip("./") + "/" + t])
         run = "go test -vet=off -count=1 -run %s %s/" % (m.group(1), pkg)
     meta["demo_norm"] = {"place": place, "run": run}
     json.dump(meta, open(os.path.join(dst, "meta.json"), "w"), indent=1)
